@@ -168,6 +168,17 @@ def check(chk: Check) -> None:
                 cps = closure_paths(F, fi, c)
                 for e, r, d in mutation_events(F, cps):
                     muts.append((e, r, d + ' (inside %s)' % c.qual))
+        # a keyed read that is expected to miss - its lookup error is handled and the builtin carries on - must not be a
+        # subscript: container[key] on an absent key runs the mapping's __missing__, and a host defaultdict (or any mapping whose
+        # __missing__ stores) is changed by it; `.get(key, default)` and `key in container` never do that
+        from . import common as _common
+        for p_ in paths:
+            for e in p_.events:
+                if e.kind == 'load_sub' and param_root(freeze(e.obj)) is not None and e.d.get('handlers'):
+                    verdict, det = _common.conversion_of(F, e, paths, ['KeyError'])
+                    if verdict in ('swallowed', 'defaulted') and not any(m_[0] is e for m_ in muts):
+                        muts.append((e, param_root(freeze(e.obj)), 'the read `%s` may miss (%s) and is a subscript: on a host mapping with '
+                                     '__missing__ (collections.defaultdict) the missing key is inserted into the argument' % (e.text(), det)))
         seen = set()
         if muts:
             for e, r, d in muts:
